@@ -11,7 +11,7 @@
 (* discretised length on floats (integers scaled by 2^12).                 *)
 (***************************************************************************)
 EXTENDS VekBezier, TLC, Json, IOUtils
-Rec == ndJsonDeserialize(IOEnv.TRACE)
+Rec == DecodeTrace(ndJsonDeserialize(IOEnv.TRACE))
 VARIABLE l
 
 DegOf(ty) == IF ty \in {"QuadraticBezier2", "QuadraticBezier3"} THEN 2 ELSE 3
